@@ -376,7 +376,7 @@ fn gen_input(g: &mut Xo) -> V {
 fn term_case(t: &Term, input: &V, seed: u64, rep: &mut Report) {
     // leaf calls of the failure-free run
     let mut st = RefState { log: vec![], counter: 0, fail_at: None };
-    let mut r0 = TraceRng::new(seed);
+    let mut r0 = TraceRng::stream(seed);
     let _ = eval(t, input.clone(), &mut r0, &mut st);
     let m = st.counter;
     if m > 130 {
@@ -390,13 +390,13 @@ fn term_case(t: &Term, input: &V, seed: u64, rep: &mut Report) {
     for fail_at in fails {
         // reference
         let mut st = RefState { log: vec![], counter: 0, fail_at };
-        let mut rr = TraceRng::new(seed);
+        let mut rr = TraceRng::stream(seed);
         let want = eval(t, input.clone(), &mut rr, &mut st);
         // real
         *ctx.counter.borrow_mut() = 0;
         *ctx.fail_at.borrow_mut() = fail_at;
         ctx.log.borrow_mut().clear();
-        let mut rg = TraceRng::new(seed);
+        let mut rg = TraceRng::stream(seed);
         let got = catch(|| real.apply(input.clone(), &mut rg));
         rep.eval();
         rep.count(if fail_at.is_some() { "runs:with-injected-failure" } else { "runs:failure-free" });
@@ -483,7 +483,7 @@ fn static_shapes(seed: u64, rep: &mut Report) {
                 let ctx = Rc::new(Ctx::default());
                 *ctx.fail_at.borrow_mut() = fail_at;
                 let p = |id: usize| Probe { id, ctx: ctx.clone() };
-                let mut rg = TraceRng::new(s);
+                let mut rg = TraceRng::stream(s);
                 // each arm uses the library's combinators with their static types
                 let got: Result<V, PErr> = match shape {
                     0 => p(0).then(p(1)).then(p(2)).apply(input.clone(), &mut rg).map_err(|e| path_of(&e)),
@@ -500,7 +500,7 @@ fn static_shapes(seed: u64, rep: &mut Report) {
                     _ => p(0).then(Identity).and(Constant::new(V::I(4))).apply(input.clone(), &mut rg).map(pair_out).map_err(|e| path_of(&e)),
                 };
                 let mut st = RefState { log: vec![], counter: 0, fail_at };
-                let mut rr = TraceRng::new(s);
+                let mut rr = TraceRng::stream(s);
                 let want = eval(&term, input.clone(), &mut rr, &mut st);
                 rep.eval();
                 rep.count("static-shapes:runs");
@@ -567,22 +567,22 @@ fn wrappers(seed: u64, rep: &mut Report) {
         for fail in [false, true] {
             let pm = PM { fail };
             // Mutate by value / by reference vs the mutator itself
-            let mut r0 = TraceRng::new(s);
+            let mut r0 = TraceRng::stream(s);
             let direct = pm.mutate(genome.clone(), &mut r0);
-            let mut r1 = TraceRng::new(s);
+            let mut r1 = TraceRng::stream(s);
             let by_ref = Mutate::new(&pm).apply(genome.clone(), &mut r1);
-            let mut r2 = TraceRng::new(s);
+            let mut r2 = TraceRng::stream(s);
             let by_val = Mutate::new(PM { fail }).apply(genome.clone(), &mut r2);
             rep.eval();
             rep.count("wrappers:Mutate");
             if direct != by_ref || direct != by_val || r0.fingerprint() != r1.fingerprint() || r0.fingerprint() != r2.fingerprint() {
                 rep.violation("C14/wrapper-Mutate", || json!({"genome": genome, "direct": format!("{direct:?}"), "by_ref": format!("{by_ref:?}"), "by_value": format!("{by_val:?}")}));
             }
-            let mut r0 = TraceRng::new(s);
+            let mut r0 = TraceRng::stream(s);
             let direct = pm.recombine([genome.clone(), other.clone()], &mut r0);
-            let mut r1 = TraceRng::new(s);
+            let mut r1 = TraceRng::stream(s);
             let by_ref = Recombine::new(&pm).apply([genome.clone(), other.clone()], &mut r1);
-            let mut r2 = TraceRng::new(s);
+            let mut r2 = TraceRng::stream(s);
             let by_val = Recombine::new(PM { fail }).apply([genome.clone(), other.clone()], &mut r2);
             rep.eval();
             rep.count("wrappers:Recombine");
@@ -596,11 +596,11 @@ fn wrappers(seed: u64, rep: &mut Report) {
         macro_rules! sel_case {
             ($name:expr, $mk:expr) => {{
                 let sel = $mk;
-                let mut r0 = TraceRng::new(s);
+                let mut r0 = TraceRng::stream(s);
                 let direct = sel.select(&pop, &mut r0).map(|x| x as *const _).map_err(|e| format!("{e:?}"));
-                let mut r1 = TraceRng::new(s);
+                let mut r1 = TraceRng::stream(s);
                 let by_ref = Select::new(&sel).apply(&pop, &mut r1).map(|x| x as *const _).map_err(|e| format!("{e:?}"));
-                let mut r2 = TraceRng::new(s);
+                let mut r2 = TraceRng::stream(s);
                 let by_val = Select::new($mk).apply(&pop, &mut r2).map(|x| x as *const _).map_err(|e| format!("{e:?}"));
                 rep.eval();
                 rep.count("wrappers:Select");
@@ -615,7 +615,7 @@ fn wrappers(seed: u64, rep: &mut Report) {
         sel_case!("Lexicase(3)", Lexicase::new(3));
         // GenomeExtractor, Identity, Constant: no randomness, value passes through
         let ind = EcIndividual::new(genome.clone(), 5u8);
-        let mut r = TraceRng::new(s);
+        let mut r = TraceRng::stream(s);
         let before = r.fingerprint();
         let ex: Result<Vec<u64>, Infallible> = GenomeExtractor.apply(&ind, &mut r);
         let id: Result<Vec<u64>, Infallible> = Identity.apply(genome.clone(), &mut r);
@@ -630,9 +630,9 @@ fn wrappers(seed: u64, rep: &mut Report) {
             let scorer = |gm: &Vec<u64>| gm.iter().fold(0u64, |a, b| a.wrapping_add(*b));
             let maker = Select::new(Best).then(GenomeExtractor).then(Mutate::new(PMu32 { fail }));
             let gs = GenomeScorer::new(Select::new(Best).then(GenomeExtractor).then(Mutate::new(PMu32 { fail })), ec_core::individual::scorer::FnScorer(|gm: &u32| u64::from(*gm) * 3));
-            let mut r0 = TraceRng::new(s);
+            let mut r0 = TraceRng::stream(s);
             let direct = maker.apply(&pop, &mut r0).map_err(|e| format!("{e:?}"));
-            let mut r1 = TraceRng::new(s);
+            let mut r1 = TraceRng::stream(s);
             let scored = gs.apply(&pop, &mut r1).map_err(|e| format!("{e:?}"));
             rep.eval();
             rep.count("wrappers:GenomeScorer");
